@@ -416,8 +416,8 @@ theorem parentIter_false (p child : Nat) (s s' : State) (pn : Node)
     InHeap p s' :=
   picrn_false_inHeap h (lt_of_some hp) (by rw [nodeD_of_some hp]; exact hv)
 
-/-- `exS` with node 4 (height 1) already waiting in the heap: the minimum height is 1, so the
-two-child node 2 (also height 1) … is still allowed; a parent at height 2 with two children is not -/
+/-- `exS` with node 4 (height 1) already waiting in the recompute heap (so the minimum height is 1) and
+the two-child node 2 moved up to height 2 and never computed: node 2 cannot be recomputed now -/
 def exSbusy : State :=
   { exS with
     nodes := (exS.nodes.modify 4 fun x => { x with heightInRch := 1 }).modify 2 fun x =>
